@@ -200,19 +200,49 @@ def ob_spline(K=2):
         fl = Fraction(adjv) / (K * (1 + Fraction(adjv))) / 2
         goals += [(f"width{i}>=floor", ts[i + 1] - ts[i] >= z3.RealVal(str(fl)) * (B - A) * z3.RealVal("0.999999")) for i in range(len(ts) - 1)]
         out.append(_finish(_prove(name, ctx, assume, goals, check), replay_knots, K=K, adj=adjv))
-    # derivatives >= min_derivative through the real wrapper
-    b = f64(RationalQuadraticSpline(knots=K, interval=(-1, 3)))
-    leaves, mk, paths = leaves_of(b)
-    syms = [symarr(f"raw{i}", l.shape) for i, l in enumerate(leaves)]
-    ctx = Ctx()
-    I = Interp(ctx)
-    set_path([], ctx.facts)
-    d = I.run(trace(lambda ls: unwrap(mk(ls)).derivatives, leaves), *syms)[0]
-    set_path(None)
-    md = Fraction(float(b.min_derivative))
-    name = f"C11/spline derivatives (K={K}) >= min_derivative for every raw value"
-    out.append(_finish(_prove(name, ctx, [], _ok_and(list(d), lambda t: t >= z3.RealVal(str(md)), jx, toz, toreal, split), check), replay_generic, what="spline derivatives"))
+    # derivatives >= min_derivative through the real wrapper, for the default and a non-default floor (the raw initialisation and the
+    # parameterisation must use the SAME constructor argument)
+    for mdv in (None, 0.125):
+        kw = {} if mdv is None else dict(min_derivative=mdv)
+        b = f64(RationalQuadraticSpline(knots=K, interval=(-1, 3), **kw))
+        leaves, mk, paths = leaves_of(b)
+        syms = [symarr(f"raw{i}", l.shape) for i, l in enumerate(leaves)]
+        ctx = Ctx()
+        I = Interp(ctx)
+        set_path([], ctx.facts)
+        d = I.run(trace(lambda ls: unwrap(mk(ls)).derivatives, leaves), *syms)[0]
+        set_path(None)
+        md = Fraction(float(b.min_derivative))
+        name = f"C11/spline derivatives (K={K}) >= min_derivative for every raw value" + ("" if mdv is None else f" [min_derivative={mdv}]")
+        out.append(_finish(_prove(name, ctx, [], _ok_and(list(d), lambda t: t >= z3.RealVal(str(md)), jx, toz, toreal, split), check), replay_spline_deriv, K=K, min_derivative=mdv))
     return out
+
+
+def replay_spline_deriv(model, K, min_derivative=None):
+    """real spline with the requested floor; raw leaves from the model (and very negative raw derivatives): derivatives >= min_derivative"""
+    import jax
+    jax.config.update("jax_enable_x64", True)
+    import jax.numpy as jnp
+    from flowjax.bijections import RationalQuadraticSpline
+    from flowjax.wrappers import unwrap
+    from ..sym import f64, leaves_of
+    kw = {} if min_derivative is None else dict(min_derivative=min_derivative)
+    b = f64(RationalQuadraticSpline(knots=K, interval=(-1, 3), **kw))
+    floor = float(b.min_derivative)
+    leaves, mk, paths = leaves_of(b)
+    bad = []
+    for use_model in (True, False):
+        new = []
+        for i, l in enumerate(leaves):
+            a = np.asarray(l, dtype=float).copy()
+            for idx in np.ndindex(a.shape):
+                key = f"raw{i}" + "".join(f"_{q}" for q in idx)
+                a[idx] = min(50.0, max(-50.0, float(model[key]))) if use_model and key in (model or {}) else (a[idx] if use_model else -40.0)
+            new.append(jnp.asarray(a))
+        val = np.asarray(unwrap(mk(new)).derivatives, dtype=float)
+        if not np.all(val >= floor * (1 - 1e-9)):
+            bad.append(f"raw leaves {[np.asarray(x).tolist() for x in new]} give derivatives {val.tolist()} below min_derivative={floor}")
+    return bool(bad), "; ".join(bad[:1]) or f"derivatives stay >= {floor} on the replay points"
 
 
 def replay_knots(model, K, adj=0.01):
